@@ -667,6 +667,12 @@ func runCase(e *env) runOut {
 				e.subScheds = append(e.subScheds, e.scheds[tm])
 			}
 		}
+		if e.resumes > 0 && len(e.segs) == e.resumes {
+			// a call that is interrupted before the first nodes after START start submits no task: its
+			// task manager never shows up in the trace. Only the first call can end that way (a resumed
+			// call always starts the restored tasks): it consists of START's pseudo task alone.
+			e.segs = append([][][]string{{}}, e.segs...)
+		}
 		e.collected = map[string]int{}
 		for _, ev := range evs {
 			if ev.Kind == "recv" {
